@@ -275,6 +275,7 @@ def make_mvcapa(n, p, m, M, mode="c03", creg="general", preg="sparse"):
         if mode == "c16":
             from .c16 import affected_obligations
             affected_obligations(eng, acc, det, out, X, anoms, cols, n, p, m, info, pa, pb, cscale)
+            _witness(eng, acc, info, anoms, scores, cols=cols)
             return
         orc = Oracle(n, p, m, min(M, n), ca, cb, pa, pb)
         _optimality(eng, acc, orc, scores, anoms, n, m, M, info, ok)
@@ -323,7 +324,7 @@ def native_run(info, env, ignore_points=False):
         return out, np.asarray(det.scores.values, dtype=float), pens
 
 
-def _witness(eng, acc, info, anoms, scores, cap=40):
+def _witness(eng, acc, info, anoms, scores, cap=40, cols=None):
     if acc.c.get("witness_tried", 0) >= cap:
         return
     acc.inc("witness_tried")
@@ -340,10 +341,12 @@ def _witness(eng, acc, info, anoms, scores, cap=40):
     fe = FloatEval(env, eng)
     got = [(int(i.left), int(i.right)) for i in out["ilocs"]]
     ok = got == anoms and all(close(float(a), fe(b), 1e-7, 1e-7) for a, b in zip(sc, scores))
+    if ok and cols is not None:
+        ok = [[int(c) for c in np.asarray(v).ravel()] for v in out["icolumns"]] == cols
     if ok:
         acc.inc("witness_ok")
     else:
-        acc.error(f"C03 witness mismatch {info}: symbolic {anoms} native {got}; env {env}")
+        acc.error(f"C03 witness mismatch {info}: symbolic {anoms} {cols} native {got}; env {env}")
 
 
 def plain_penalised(vals, alpha, betas):
